@@ -5,7 +5,8 @@
    goroutines, any lengths) under ANY schedule; [tr] is its ghost trace.                     *)
 From Coq Require Import List Arith ZArith Bool.
 From GT Require Import Base.Conc.
-From GT Require Import WGModel WGSpec WGSpecProofs WGInv WGProofs WGRefute.
+From GT Require Import Base.ConcIR.
+From GT Require Import WGModel WGSpec WGSpecProofs WGInv WGProofs WGWf WGRefute WGProg WGDenote.
 Import ListNotations.
 Local Open Scope Z_scope.
 
@@ -16,6 +17,22 @@ Theorem C01 : forall progs sched,
   well_behaved (tr (wg_exec progs sched)) = true ->
   c01_ok (tr (wg_exec progs sched)) = true.
 Proof. exact c01_wb. Qed.
+
+(* the machine [wg_exec] is the denotation (Base/ConcIR.v) of the IR term [hand_prog], which the
+   check ties to the current source by `gen_prog = hand_prog := eq_refl`: same memory and same
+   trace for every client program and schedule *)
+Theorem C01_machine_is_denotation : forall progs sched,
+  sh (dwg_exec hand_prog progs sched) = sh (wg_exec progs sched) /\
+  tr (dwg_exec hand_prog progs sched) = tr (wg_exec progs sched).
+Proof. exact denote_current. Qed.
+
+(* so the property holds of the denotation of what the source says *)
+Theorem C01_denoted : forall progs sched,
+  well_behaved (tr (dwg_exec hand_prog progs sched)) = true ->
+  c01_ok (tr (dwg_exec hand_prog progs sched)) = true.
+Proof.
+  intros progs sched. destruct (denote_current progs sched) as [_ ->]. apply c01_wb.
+Qed.
 
 (* it holds even without the side condition *)
 Theorem C01_unconditional : forall progs sched, c01_ok (tr (wg_exec progs sched)) = true.
@@ -28,6 +45,16 @@ Proof. exact c01_all. Qed.
    there is a position tau, s <= tau <= u, at which the lower bound is <= 0 *)
 Theorem C01_monitor_sound : forall t, c01_ok t = true -> c01_spec t.
 Proof. exact c01_ok_spec. Qed.
+
+(* and for well-formed traces (every thread: call when idle, internal steps inside a call, return
+   of the call in progress; checked by the executable trace_wf on every recorded trace) the
+   monitor is EXACTLY that sentence: a rejected trace violates it *)
+Theorem C01_monitor_exact : forall t, trace_wf t = true -> (c01_ok t = true <-> c01_spec t).
+Proof. exact c01_ok_iff_spec. Qed.
+
+(* traces of the machine are well formed *)
+Theorem C01_machine_trace_wf : forall progs sched, trace_wf (tr (wg_exec progs sched)) = true.
+Proof. exact wg_trace_wf. Qed.
 
 (* hence the property in its declarative form for the machine *)
 Theorem C01_declarative : forall progs sched,
@@ -71,9 +98,20 @@ Theorem C01_orig_refuted : exists progs sched,
   well_behaved (tr (wgo_exec progs sched)) = true /\ c01_ok (tr (wgo_exec progs sched)) = false.
 Proof. exact c01_orig_refuted. Qed.
 
+(* [wgo_exec] is the denotation of the IR of the pinned source, so the refutation is about it *)
+Theorem C01_orig_machine_is_denotation : forall progs sched,
+  sh (dwgo_exec hand_prog_orig progs sched) = sh (wgo_exec progs sched) /\
+  tr (dwgo_exec hand_prog_orig progs sched) = tr (wgo_exec progs sched).
+Proof. exact denote_pinned. Qed.
+
 Print Assumptions C01.
+Print Assumptions C01_machine_is_denotation.
+Print Assumptions C01_denoted.
+Print Assumptions C01_orig_machine_is_denotation.
 Print Assumptions C01_unconditional.
 Print Assumptions C01_monitor_sound.
+Print Assumptions C01_monitor_exact.
+Print Assumptions C01_machine_trace_wf.
 Print Assumptions C01_declarative.
 Print Assumptions C01_state_form.
 Print Assumptions C01_lb_le_count.
